@@ -17,6 +17,7 @@ for id in "$@"; do
   [ -f $src/confirm.pre ] && bash $src/confirm.pre >> $log 2>&1
   pkg=polytune
   if grep -q "^+++ b/crates/polytune-server-core" $src/patch.diff || grep -qs "polytune_server_core" $src/demo/*.rs; then pkg=polytune-server-core; fi
+  if grep -q "^+++ b/crates/polytune-http-server" $src/patch.diff; then pkg=polytune-http-server; fi
   demo=$(ls $src/demo/*.rs | head -1); name=$(basename $demo .rs)
   flags=""; [ -f $src/confirm.flags ] && flags=$(cat $src/confirm.flags)
   if [ "$pkg" = "polytune" ]; then tdir=tests; else tdir=crates/$pkg/tests; mkdir -p $tdir; fi
